@@ -29,6 +29,7 @@ import (
 	"time"
 
 	"verif/harness/core"
+	_ "verif/harness/fam/cluster"
 	_ "verif/harness/fam/engine"
 	_ "verif/harness/fam/inbox"
 	_ "verif/harness/fam/remote"
